@@ -25,7 +25,7 @@ Cases ==
   \cup {<< "secinfos", k, cn, ids, ord >> : k \in {"DG14", "CardAccess", "CardSecurity"}, cn \in Counts, ids \in BOOLEAN, ord \in {"table", "permuted"}}
   \cup {<< "sod", v, nh, ord >> : v \in 0..1, nh \in 1..MaxRep, ord \in {"ascending", "other"}}
   \cup {<< "wrongdg", k, n >> : k \in Kinds, n \in 1..16}
-  \cup {<< "summary", d11, t, n7, com, vi >> : d11 \in Dg11Shapes, t \in SmallTpls, n7 \in 0..2, com \in BOOLEAN, vi \in BOOLEAN}
+  \cup {<< "summary", d11, t, n7, com, vi, d12 >> : d11 \in Dg11Shapes, t \in SmallTpls, n7 \in 0..2, com \in BOOLEAN, vi \in BOOLEAN, d12 \in Dg12Shapes}
 
 Expected(x) ==
   CASE x[1] = "tagged"   -> ViewTagged(x[2], x[3], x[4])
@@ -34,7 +34,7 @@ Expected(x) ==
     [] x[1] = "secinfos" -> ViewSecInfos(x[3])
     [] x[1] = "sod"      -> ViewSOD(x[2], x[3], x[4])
     [] x[1] = "wrongdg"  -> AcceptedAs(x[2], x[3])
-    [] x[1] = "summary"  -> SummaryOf(x[2], x[3], x[4], x[5], x[6])
+    [] x[1] = "summary"  -> [s |-> SummaryOf(x[2], x[3], x[4], x[5], x[6]), img |-> SummaryImages(x[7])]
 
 Init == c \in Cases /\ LInit
 Next == UNCHANGED << c, lvars >>
